@@ -300,26 +300,27 @@ def compare_results(net_a, net_b, atol=1e-6, rtol=1e-7, tables=None, skip_cols=(
     return diffs
 
 
+_EMPTY_INTERNAL = None
+
+
 def strip_results(net):
-    """fresh copy: deep copy without results, _ppc, options and lookups (DESIGN.md C09)"""
+    """fresh copy of the current state: deep copy of all input data, with result tables emptied and every internal
+    cache (_ppc, lookups, _options, _is_elements, ...) reset to what a newly created network has (DESIGN.md C09)"""
     import pandapower as pp
+    global _EMPTY_INTERNAL
+    if _EMPTY_INTERNAL is None:
+        e = pp.create_empty_network()
+        _EMPTY_INTERNAL = {k: copy.deepcopy(v) for k, v in e.items() if k.startswith("_") and not k.startswith("_empty_res")}
     n = copy.deepcopy(net)
-    pp.clear_result_tables(n)
     for k in list(n.keys()):
-        if k.startswith("_") and k not in ("_empty_res_bus",) and not k.startswith("_empty_res") and not k.startswith("__"):
-            if k in ("_ppc", "_ppc0", "_ppc1", "_ppc2", "_is_elements", "_is_elements_final", "_pd2ppc_lookups", "_options",
-                     "_isolated_buses", "_gen_order", "_impedance_bb_switches", "_fused_bb_switches", "_ppc_opf"):
-                try:
-                    if k == "_ppc":
-                        n[k] = None
-                    elif k == "_pd2ppc_lookups":
-                        n[k] = {"bus": None, "ext_grid": None, "gen": None, "branch": None}
-                    elif k == "_options":
-                        n[k] = {}
-                    elif k == "_is_elements":
-                        n[k] = None
-                    else:
-                        n[k] = None
-                except Exception:
-                    pass
+        if k.startswith("_") and not k.startswith("_empty_res"):
+            if k in _EMPTY_INTERNAL:
+                n[k] = copy.deepcopy(_EMPTY_INTERNAL[k])
+            else:
+                del n[k]
+        elif k.startswith("res_") and isinstance(n[k], pd.DataFrame):
+            emp = "_empty_" + k
+            n[k] = n[emp].copy() if emp in n and isinstance(n[emp], pd.DataFrame) else n[k].iloc[0:0].copy()
+    n["converged"] = False
+    n["OPF_converged"] = False
     return n
